@@ -184,6 +184,15 @@ pub fn match_bed_and_breakfast(
     // Track cumulative ratio effect from splits/unsplits between sell and potential buys
     let mut cumulative_ratio_effect = Decimal::ONE;
 
+    // Splits dated on the disposal day take effect after that day's disposals
+    // (see `Matcher::process`), so they lie between this disposal and any later
+    // acquisition, wherever they are listed within the day.
+    for tx in all_transactions {
+        if tx.date == sell_tx.date && tx.ticker == sell_tx.ticker {
+            apply_split_ratio_effect(&mut cumulative_ratio_effect, tx);
+        }
+    }
+
     // Find transactions after sell date, within B&B window, for same ticker
     for (idx, tx) in all_transactions.iter().enumerate().skip(sell_idx + 1) {
         if *remaining <= Decimal::ZERO {
